@@ -30,6 +30,8 @@ def check(F, rep, tier):
     san.predicates_in_closures(F, rep, "R16.5", "Sanitizer::remove_leading_zeros_from_segment", "is_ascii_digit", 1)
     san.predicates_in_closures(F, rep, "R16.4", "Sanitizer::sanitize_to_integer", "is_ascii_digit", 1)
     san.zero_strip_result(F, rep, "R16.5")
+    san.zero_strip_paths(F, rep, "R16.5")
+    san.replace_result_origin(F, rep, "R16.1")
     return core.finish(rep, explanation=EXPL, assumptions=ASSUME, trusted=TRUST)
 
 EXPL = ("Structural clauses of the sanitiser contract decided on the MIR of utils::sanitize: (R16.1) every character appended to the result is dominated by an ASCII-alphanumeric predicate on that same character, "
